@@ -282,6 +282,21 @@ def subgraphCall (types : List Ty) (cb : Nat) (beh : CbBehaviour) (w : World) :
     | .error e => (.error e, w2)
   else (.error .typeError, w1)
 
+/-- What is passed as `types` to `subgraph(types, fun)`. -/
+inductive TypesArg
+  | notIterable                    -- `None`, an int, a single `Type`
+  | hasNonType                     -- an iterable with an element that is not a `Type` (a string, `[t, None]`)
+  | ok (ts : List Ty)              -- an iterable of Types: list, tuple, generator, `map`, dict keys …
+deriving DecidableEq, Repr, Inhabited
+
+/-- `subgraph(types, fun)` from its first line: `types` is materialised and validated before anything
+    else — for a malformed one no argument is created and the callback is not even looked at; any iterable
+    of Types (one-shot ones included) stands for its elements. -/
+def subgraphEntry (ta : TypesArg) (cb : Nat) (beh : CbBehaviour) (w : World) : Except Err Graph × World :=
+  match ta with
+  | .ok ts => subgraphCall ts cb beh w
+  | _ => (.error .typeError, w)
+
 /-- The callbacks passed to a constructor: parameter name ↦ (identity, behaviour). -/
 abbrev Callbacks := String → Nat × CbBehaviour
 
